@@ -6,6 +6,18 @@ ids = [json.loads(l)['id'] for l in open(f'{V}/properties.jsonl')]
 hook_commits = ["d6c2605", "7556b51"]
 
 CLAIMED = {
+ "C03": dict(engine="E2 corpus", technique="proptest-driven generation of dependency graphs x placements x directory spellings; oracle = swc free-name analysis of every written file + reference path resolver",
+   text="Generated modules (references, generics, defaults, inline, flatten, self reference, shared files, nested and `../` placements) are compiled, every registered type is exported as root into a fresh directory under one of 6 spellings, and each written file is parsed: names used minus names declared must equal the imported names (once each), every specifier must resolve to a file of the same export that declares the name, no self import; dependencies() must cover the free names of decl().",
+   note="Used names come from tsmodel::free_type_names over swc's AST, not from ts-rs. import-esm is built in the thorough tier only.",
+   ref="DESIGN.md §4 C03"),
+ "C04": dict(engine="E2 corpus", technique="proptest-driven generation over identifier/string/doc pools; oracle = independent TypeScript grammar (swc) + layout conditions",
+   text="Generated types with raw/keyword/non-ASCII identifiers, rename/tag/content strings needing quoting, doc comments of every style with hostile text, several types per file and stale files at the targets are exported; every written file and every export_to_string() must parse with swc without recoverable errors, start with the notice, consist of `import type` statements followed by `export type` aliases, declare exactly the TS names mapped to it once each, end with a newline and declare no property twice.",
+   note="swc is more lenient than tsc in places (reserved words as alias names). Strings needing escaping are covered by two listed known findings and excluded from the search.",
+   ref="DESIGN.md §4 C04"),
+ "C11": dict(engine="E2 corpus", technique="proptest-driven generation of graphs/placements with pre-existing files; oracle = directory snapshot diff against the documented path rule over text-derived reachability",
+   text="For every registered type exported as root (export_all_to / export_all with TS_RS_EXPORT_DIR, 6 spellings) the set of created-or-modified files must equal { dir / documented_path(U) } for the definitions U reachable from the root through the names in the swc-parsed declarations; nothing may be removed, unrelated files stay byte-identical, stale files at targets are replaced, and output_path() must equal the documented rule.",
+   note="Reachability is read off declaration texts, independent of visit_dependencies. `concrete(..)`/associated-type graphs are not generated.",
+   ref="DESIGN.md §4 C11"),
  "C01": dict(engine="E2 corpus", technique="proptest-driven program generation (compile step in the loop) x generated values; oracle = serde_json output must be a member of the swc-parsed TypeScript denotation",
    text="Generated modules of related types in the serde/ts-rs fragment are compiled against /repo; >=64 generated values per type are serialised by serde_json and each must inhabit name()/decl(), inline() and decl_concrete() under an independent TypeScript model (exact objects, DNF intersections). Failing modules are shrunk 16 candidates per build.",
    note="Trusts swc's parser and tsmodel's denotation (unit-tested, self-checked) and serde_json as the wire format. Generator soundness rules are listed in DESIGN.md Appendix C; serde refusing to serialise is vacuous.",
